@@ -1,10 +1,13 @@
 #!/bin/sh
-# tools/try_only.sh <patch file | seeded-id> <prop> <contract-id-substring> : apply a patch to /repo, run one contract, undo.
+# tools/try_only.sh <patch file | seeded-id> <prop> [<contract-id-substring>] : apply a patch to a scratch worktree of /repo,
+# run one property (or one contract of it) against it, remove the worktree.  /repo and evidence/ are not touched.
 pf="$1"; [ -f "$pf" ] || pf="/verif/seeded/$1/patch.diff"
 cd /verif
-git -C /repo diff --quiet || { echo "/repo has uncommitted changes"; exit 9; }
-git -C /repo apply "$pf" || { echo "patch does not apply"; exit 9; }
-rm -rf .scratch/evidence.bak; cp -r evidence .scratch/evidence.bak
-trap 'git -C /repo checkout -- .; rm -rf evidence; mv .scratch/evidence.bak evidence' EXIT INT TERM
-./check "$2" --only "$3" > ".scratch/only.out" 2>&1; rc=$?
-echo "== $1 on $2/$3: exit=$rc"; grep -E '^(VIOLATION|UNDECIDED|CHECKER-ERROR|  obligation)' ".scratch/only.out" | cut -c1-260 | head -12
+WT="/tmp/try-wt-$$"; OUT="/tmp/try-out-$$"
+git -C /repo worktree add --detach "$WT" HEAD >/dev/null 2>&1 || { echo "cannot create worktree"; exit 9; }
+trap 'git -C /repo worktree remove --force "$WT" >/dev/null 2>&1; rm -rf "$WT" "$OUT"' EXIT INT TERM
+git -C "$WT" apply "$pf" || { echo "patch does not apply"; exit 9; }
+if [ -n "$3" ]; then only="--only $3"; else only=""; fi
+PYVC_REPO="$WT" PYVC_OUT="$OUT" ./check "$2" $only > ".scratch/only_$$.out" 2>&1; rc=$?
+echo "== $1 on $2/$3: exit=$rc"; grep -E '^(VIOLATION|UNDECIDED|CHECKER-ERROR|  obligation)' ".scratch/only_$$.out" | cut -c1-260 | head -12
+rm -f ".scratch/only_$$.out"
